@@ -122,7 +122,7 @@ func runC14(ctx *Ctx) {
 	// a systematic family around bodies: keyword, parameters, line end, body, what follows the body
 	for _, kw := range scanTokens[:30] {
 		for _, par := range []string{"", " @a", " /p", " any", " regex", " 0.3", " \"a b\"", " \"regex\"", " \"any\"", " regex x", " \"reg\\\\ex\""} {
-			for _, body := range []string{"{}", "[1]", "/x/", "text", "@a", "{\"a\":1}"} {
+			for _, body := range []string{"{}", "[1]", "/x/", "text", "@a", "{\"a\":1}", "/x\\", "/x\\/", "/"} {
 				for _, suf := range []string{"", " ", "\t", " # c", " //", "\n", "\r", "\r\n", " \n"} {
 					for _, next := range []string{"", "GET /a", ")"} {
 						inputs = append(inputs, []byte(kw+par+"\n"+body+suf+next))
